@@ -1,12 +1,12 @@
 CONSTANTS
-  Fams = {"options", "ctype", "cond", "auth", "cookie", "url"}
+  Fams = {"options", "ctype", "cond", "auth", "cookie", "url", "range", "date"}
   FullLen = 3
   MaxLen = 4
   CoreToks = 14
   PumpLen = 8192
   Pump2Toks = 12
   Pump2Len = 2048
-  Modes = {"seq", "sweep", "pump", "pump2", "table"}
+  Modes = {"seq", "gram", "sweep", "pump", "pump2", "table"}
 INIT Init
 NEXT Next
 CHECK_DEADLOCK FALSE
